@@ -61,6 +61,13 @@ fn gen_path_dev(rng: &mut Rng, w: i32, h: i32) -> Vec<PathOp> {
                 1 => p.y = l.y,                   // horizontal
                 2 => p.x = l.x,                   // vertical
                 3 => p = Point::new(l.x + 1e-6, l.y - 1e-6), // nearly coincident
+                4 if ops.len() >= 2 => {
+                    // a hairpin: back to (almost) the point before the last one
+                    if let Some(PathOp::LineTo(b)) | Some(PathOp::MoveTo(b)) = ops.get(ops.len() - 2).cloned() {
+                        let e = *rng.pick(&[0.0f32, 1e-3, 1e-4, 0.01, 0.1]);
+                        p = Point::new(b.x + e, b.y - e * 0.5);
+                    }
+                }
                 _ => {}
             }
         }
@@ -428,12 +435,13 @@ fn gen_seq(rng: &mut Rng) -> Seq {
                 calls.push(Call::Op(Op::SetTransform(t)));
             }
             2 | 3 => {
-                let r = match rng.below(8) {
+                let r = match rng.below(9) {
                     0 => (3, 3, 1, 1),
                     1 => (0, 0, 0, 0),
                     2 => (-1_000_000, -1_000_000, 1_000_000, 1_000_000),
                     3 => (w + 5, 0, w + 9, h),
                     4 => (i32::MIN, i32::MIN, i32::MAX, i32::MAX),
+                    5 => *rng.pick(&[(1_000_000, 1_000_000, -1_000_000, -1_000_000), (100_000, 100_000, 0, 0), (70_000, 60_000, 5, 5), (0, 0, -50_000, -50_000), (i32::MAX, i32::MAX, i32::MIN, i32::MIN)]),
                     _ => {
                         let (x0, y0) = (rng.int(-4, w as i64 + 2) as i32, rng.int(-4, h as i64 + 2) as i32);
                         (x0, y0, x0 + rng.int(-2, w as i64 + 4) as i32, y0 + rng.int(-2, h as i64 + 4) as i32)
@@ -519,7 +527,7 @@ fn gen_seq(rng: &mut Rng) -> Seq {
                 let dev = gen_path_dev(rng, w, h);
                 let scale = T64::from(&t).max_scale().max(1e-12);
                 // a width whose outset stays well inside the domain in device space
-                let ml = *rng.pick(&[0.0f32, 0.5, 1., 1.4142135, 2., 4., 10., 100.]);
+                let ml = *rng.pick(&[0.0f32, 0.5, 1., 1.4142135, 2., 4., 10., 100., 8192., 1e4, 1e6, f32::MAX]);
                 let max_w_user = (600. / scale) / (ml.max(1.4142135) as f64);
                 let width = match rng.below(12) {
                     0 => 0.,
